@@ -699,6 +699,7 @@ func (d *mkDest) serve(c *net.TCPConn) {
 		n, err := c.Read(buf)
 		if n > 0 {
 			v.feed(buf[:n])
+			upd(func(s *mkServerSide) { s.Got, s.BadAt = v.n, v.badAt }) // live progress
 		}
 		if v.n > c2s+(1<<16) {
 			break
